@@ -7,6 +7,19 @@ from . import model, paths
 from .paths import guards_of, src, subscript_key
 
 
+def norm_guards(prog, fn, node):
+    """Guards dominating ``node`` with single-assignment temporaries read as
+    their definitions and calls of small predicate helpers read as the
+    condition they compute."""
+    from . import roles
+    out = []
+    for t, pol in guards_of(fn.node, node):
+        t2 = roles.inline(fn.node, t, only=roles.scalarish)
+        t2 = roles.expand_predicates(prog, fn.module, t2)
+        out.append((t2, pol))
+    return out
+
+
 def _is_sub(node, name, key):
     return isinstance(node, ast.Subscript) and isinstance(node.value, ast.Name) \
         and node.value.id == name and isinstance(node.slice, ast.Constant) \
@@ -86,68 +99,247 @@ def stmt_of(fn_node, node):
 
 
 # ---------------------------------------------------------------------------
+def _norm(prog, fn, e):
+    """Expression with single-assignment temporaries and predicate helpers
+    read as what they stand for."""
+    from . import roles
+    return roles.expand_predicates(
+        prog, fn.module, roles.inline(fn.node, e, only=roles.scalarish))
+
+
+_LEN_CTX = [None]       # function node whose single assignments are followed
+
+
+def len_origin(e, depth=0):
+    """The name X with len(e) == len(X): X itself, a map comprehension over
+    X, np.array / list / tuple of such; a name bound once to such an
+    expression is followed (keys = [tuple(i) for i in I])."""
+    if isinstance(e, ast.Name):
+        fn_node = _LEN_CTX[0]
+        if fn_node is not None and depth < 4:
+            from . import roles
+            tab = roles.single_assignments(fn_node)
+            v = tab.get(e.id)
+            if v is not None and not isinstance(v, ast.Name):
+                o = len_origin(v, depth + 1)
+                if o is not None:
+                    return o
+        return e.id
+    if isinstance(e, ast.ListComp) and len(e.generators) == 1 and \
+            not e.generators[0].ifs:
+        return len_origin(e.generators[0].iter, depth + 1)
+    if isinstance(e, ast.Call) and len(e.args) >= 1 and (
+            (isinstance(e.func, ast.Name) and e.func.id in ('list', 'tuple'))
+            or (isinstance(e.func, ast.Attribute) and
+                e.func.attr in ('array', 'asarray', 'asanyarray'))):
+        return len_origin(e.args[0], depth + 1)
+    return None
+
+
+def _len_arg(node):
+    """len(E) -> origin name of E (see len_origin); E.shape[0] likewise."""
+    if isinstance(node, ast.Call) and isinstance(node.func, ast.Name) and \
+            node.func.id == 'len' and len(node.args) == 1:
+        return len_origin(node.args[0])
+    if isinstance(node, ast.Subscript) and \
+            isinstance(node.value, ast.Attribute) and \
+            node.value.attr == 'shape' and \
+            isinstance(node.slice, ast.Constant) and node.slice.value == 0:
+        return len_origin(node.value.value)
+    return None
+
+
+def budget_atomiser(info, batch):
+    """Atoms of the budget test:  N = (info['m_max'] is None),
+    G = (info['m'] + len(batch) > info['m_max'])."""
+    def is_sum(x):
+        if isinstance(x, ast.BinOp) and isinstance(x.op, ast.Add):
+            a, b = x.left, x.right
+            if _is_sub(b, info, 'm'):
+                a, b = b, a
+            return _is_sub(a, info, 'm') and _len_arg(b) == batch
+        return False
+
+    def atomise(node):
+        if isinstance(node, ast.Compare) and len(node.ops) == 1:
+            l, r, op = node.left, node.comparators[0], type(node.ops[0])
+            if op in (ast.Is, ast.IsNot) and _is_sub(l, info, 'm_max') and \
+                    isinstance(r, ast.Constant) and r.value is None:
+                return ('N', op is ast.Is)
+            if op in (ast.Eq, ast.NotEq) and _is_sub(l, info, 'm_max') and \
+                    isinstance(r, ast.Constant) and r.value is None:
+                return ('N', op is ast.Eq)
+            if is_sum(l) and _is_sub(r, info, 'm_max'):
+                if op is ast.Gt:
+                    return ('G', True)
+                if op is ast.LtE:
+                    return ('G', False)
+            if is_sum(r) and _is_sub(l, info, 'm_max'):
+                if op is ast.Lt:
+                    return ('G', True)
+                if op is ast.GtE:
+                    return ('G', False)
+        return None
+    return atomise
+
+
+def oracle_family(prog, qual):
+    """The wrapper and the private helpers of its module that (transitively)
+    receive the objective: [(Function, name of its oracle parameter)]."""
+    from . import roles
+    root = prog.func(qual)
+    out, todo, seen = [], [(root, root.params[0])], set()
+    while todo:
+        fn, opar = todo.pop(0)
+        if fn.qualname in seen:
+            continue
+        seen.add(fn.qualname)
+        out.append((fn, opar))
+        for node in ast.walk(fn.node):
+            if not isinstance(node, ast.Call):
+                continue
+            try:
+                callee = roles.callee_of(prog, fn.module, node)
+            except Exception:
+                callee = None
+            if callee is None or callee.module is not fn.module or \
+                    isinstance(callee.node, ast.Lambda):
+                continue
+            amap = roles.arg_names(prog, fn.module, node) or {}
+            for p, a in amap.items():
+                if isinstance(a, ast.Name) and a.id == opar:
+                    todo.append((callee, p))
+    return out
+
+
 def check_func_eval(prog, rep, qual='cross._func_eval'):
-    """P-budget, P-count on the objective wrapper."""
-    fn = prog.func(qual)
+    """P-budget, P-count on the objective wrapper and on the helpers it hands
+    the objective to."""
+    fam = oracle_family(prog, qual)
+    n_calls = 0
+    for fn, opar in fam:
+        n_calls += _check_wrapper(prog, rep, fn, opar, qual,
+                                  [f.qualname for f, _ in fam])
+    if n_calls < 1:
+        rep.error('%s: no call of the objective found' % qual)
+
+
+def _check_wrapper(prog, rep, fn, opar, root_qual, family):
+    """All tests are read with their temporaries inlined; the budget rule is
+    a propositional entailment (any spelling / nesting / negation of the same
+    two atoms)."""
+    from . import roles
+    qual = fn.qualname
     mod = fn.module
     params = fn.params
-    if len(params) < 3:
-        raise model.AnalysisError('%s: unexpected signature' % qual)
-    info = 'info' if 'info' in params else params[2]
+    info = 'info' if 'info' in fn.all_params else (
+        params[2] if len(params) > 2 else None)
+    if info is None:
+        return 0
+    batch_param = params[1] if len(params) > 1 else 'I'
+    _LEN_CTX[0] = fn.node
+    escapes = [c for c in ast.walk(fn.node) if isinstance(c, ast.Call) and
+               not (isinstance(c.func, ast.Name) and c.func.id == opar) and
+               any(isinstance(a, ast.Name) and a.id == opar
+                   for a in list(c.args) + [k.value for k in c.keywords])]
     n_calls = 0
     for call in oracle_calls(fn):
+        if call.func.id != opar:
+            continue
         n_calls += 1
         construct = src(mod, call)
         if len(call.args) != 1 or not isinstance(call.args[0], ast.Name):
             rep.unknown('P-budget', qual, construct, 'batch is not a name')
             continue
         batch = call.args[0].id
-        gs = guards_of(fn.node, call)
-        ok = any((pol is False) and is_budget_test(t, info, batch)
-                 for t, pol in gs)
-        if ok:
+        gs = norm_guards(prog, fn, call)
+        at = budget_atomiser(info, batch)
+        ent = paths.entails(gs, at, lambda a: a['N'] or not a['G'])
+        mentions = any(_is_sub(x, info, 'm_max')
+                       for t, _ in gs for x in ast.walk(t))
+        if ent:
             rep.ok('P-budget', qual, construct,
                    detail='dominated by the budget test on batch %s' % batch)
+        elif ent is None:
+            rep.unknown('P-budget', qual, construct, 'too many atoms')
         else:
             rep.violation('P-budget', qual, construct,
-                          'the objective is called on batch %s without a '
-                          'dominating test  info["m_max"] is not None and '
-                          'info["m"] + len(%s) > info["m_max"]  (guards: %s)'
+                          'the objective is called on batch %s although the '
+                          'guards do not imply  info["m_max"] is None or '
+                          'info["m"] + len(%s) <= info["m_max"]  (guards: %s)'
                           % (batch, batch,
-                             '; '.join('%s is %s' % (src(mod, t), p)
+                             '; '.join('%s is %s' % (ast.unparse(t), p)
                                        for t, p in gs) or 'none'),
                           line=call.lineno, file=mod.path)
-        # the budget branch must record stop='m' and leave
-        for t, pol in gs:
-            if pol is False and is_budget_test(t, info, batch):
-                ifs = [n for n in ast.walk(fn.node)
-                       if isinstance(n, ast.If) and n.test is t]
-                for i in ifs:
-                    st = [v for _, tg, v in stores_of_key(i, 'stop')
-                          if isinstance(v, ast.Constant)]
-                    if any(v.value == 'm' for v in st) and \
-                            paths.always_exits(i.body):
-                        rep.ok('P-stop-m', qual, src(mod, t))
-                    else:
-                        rep.violation('P-stop-m', qual, src(mod, t),
-                                      'the budget branch does not record '
-                                      'stop="m" and return',
-                                      line=i.lineno, file=mod.path)
-    if n_calls < 2:
-        rep.error('%s: expected 2 objective call sites (plain / cached), '
-                  'found %d' % (qual, n_calls))
-    # --- P-count over event paths
-    ps = paths.paths(fn.node)
+        # the budget branch must record stop='m' and leave: the If whose
+        # failing guards the call, when it holds
+        for node in ast.walk(fn.node):
+            if not isinstance(node, ast.If):
+                continue
+            t = _norm(prog, fn, node.test)
+            for arm, pol in ((node.body, True), (node.orelse, False)):
+                if not arm:
+                    continue
+                # in this arm the budget is exceeded for sure
+                exceeded = paths.entails(
+                    [(t, pol)], at, lambda a: (not a['N']) and a['G'])
+                if not exceeded:
+                    continue
+                st = [v for s_ in arm for _, tg, v in stores_of_key(s_, 'stop')
+                      if isinstance(v, ast.Constant)]
+                if any(v.value == 'm' for v in st) and \
+                        paths.always_exits(arm):
+                    rep.ok('P-stop-m', qual, src(mod, node.test))
+                else:
+                    rep.violation('P-stop-m', qual, src(mod, node.test),
+                                  'the budget branch does not record '
+                                  'stop="m" and return',
+                                  line=node.lineno, file=mod.path)
+    # --- P-count over event paths (contradictory paths -- the same stable
+    # test taken both ways -- are not paths of the program)
+    stable = set(roles.single_assignments(fn.node)) | set(fn.all_params)
+    multi = {n.id for n in ast.walk(fn.node)
+             if isinstance(n, ast.Name) and isinstance(n.ctx, ast.Store)} \
+        - set(roles.single_assignments(fn.node))
+
+    def feasible(path):
+        gs_ = []
+        serial = [0]
+
+        def atomise(node):
+            # an atom over a name that is re-bound, or with a call in it, may
+            # differ between two evaluations: a free atom of its own
+            unstable = any(isinstance(x, ast.Name) and x.id in multi
+                           for x in ast.walk(node)) or any(
+                isinstance(x, ast.Call) and not (
+                    isinstance(x.func, ast.Name) and x.func.id == 'len')
+                for x in ast.walk(node))
+            if unstable:
+                serial[0] += 1
+                return ('free%d' % serial[0], True)
+            return None
+        for e in path:
+            if e.kind == 'test' and isinstance(e.node, ast.expr):
+                gs_.append((_norm(prog, fn, e.node), e.pol))
+        return not paths.entails(gs_, atomise, lambda a: False)
+    ps = [p for p in paths.paths(fn.node) if feasible(p)]
+
+    def inc_amount(node):
+        return _len_arg(_norm(prog, fn, node.value))
     for path in ps:
-        called = None      # (batch, result var)
+        called = None      # (batch, result var, stmt)
         none_branch = None
         incs = []
         empty_batches = set()
+        tests = []
+        escaped = False
         for ev in path:
             if ev.kind == 'stmt':
                 for c in paths.calls_in(ev.node):
+                    if c in escapes:
+                        escaped = True      # the objective may be called there
                     if isinstance(c.func, ast.Name) and \
-                            c.func.id in fn.all_params and c.args and \
+                            c.func.id == opar and c.args and \
                             isinstance(c.args[0], ast.Name):
                         res = None
                         if isinstance(ev.node, ast.Assign) and \
@@ -159,23 +351,39 @@ def check_func_eval(prog, rep, qual='cross._func_eval'):
                         isinstance(ev.node.op, ast.Add):
                     incs.append(ev.node)
             elif ev.kind == 'test' and isinstance(ev.node, ast.expr):
-                t = ev.node
-                if called and called[1] and isinstance(t, ast.Compare) and \
-                        isinstance(t.left, ast.Name) and \
-                        t.left.id == called[1] and len(t.ops) == 1 and \
-                        isinstance(t.ops[0], ast.Is) and \
-                        isinstance(t.comparators[0], ast.Constant) and \
-                        t.comparators[0].value is None:
-                    none_branch = ev.pol
-                ln = _len_of(t)
-                if ln and ev.pol is False:
-                    empty_batches.add(ln)
+                tests.append((_norm(prog, fn, ev.node), ev.pol))
+        for t, pol in paths.guard_atoms(tests):
+            if called and called[1] and isinstance(t, ast.Compare) and \
+                    isinstance(t.left, ast.Name) and \
+                    t.left.id == called[1] and len(t.ops) == 1 and \
+                    isinstance(t.ops[0], (ast.Is, ast.IsNot)) and \
+                    isinstance(t.comparators[0], ast.Constant) and \
+                    t.comparators[0].value is None:
+                none_branch = (isinstance(t.ops[0], ast.Is) == pol)
+            # an empty batch:  len(X) falsy, len(X) > 0 false, len(X) == 0
+            ln = _len_arg(t)
+            if ln and pol is False:
+                empty_batches.add(ln)
+            if isinstance(t, ast.Compare) and len(t.ops) == 1 and \
+                    isinstance(t.comparators[0], ast.Constant) and \
+                    t.comparators[0].value == 0 and _len_arg(t.left):
+                op = type(t.ops[0])
+                if (op in (ast.Gt, ast.NotEq) and pol is False) or \
+                        (op in (ast.Eq, ast.LtE) and pol is True):
+                    empty_batches.add(_len_arg(t.left))
         desc = 'path[%s]' % ','.join(
             str(getattr(e.node, 'lineno', '?')) + ('' if e.pol is None
                                                    else '+-'[not e.pol])
             for e in path if e.kind == 'test')
         if called:
             batch = called[0]
+            # the batch may be an alias of another name (I_new = I)
+            names = {batch}
+            for nm, vs in ((nm, roles.assigned_value(fn.node, nm))
+                           for nm in list(names)):
+                for v in vs:
+                    if isinstance(v, ast.Name):
+                        names.add(v.id)
             after = [i for i in incs if i.lineno > called[2].lineno]
             if none_branch is True:
                 if after:
@@ -187,8 +395,17 @@ def check_func_eval(prog, rep, qual='cross._func_eval'):
                 else:
                     rep.ok('P-count', qual, 'not counted when objective '
                            'returned None (%s)' % desc)
+            elif not after and called[1] and qual != root_qual and \
+                    path and path[-1].kind == 'end' and \
+                    isinstance(path[-1].node, ast.Return) and \
+                    isinstance(path[-1].node.value, ast.Name) and \
+                    path[-1].node.value.id == called[1]:
+                rep.unknown('P-count', qual, 'result of f(%s) returned to '
+                            'the caller (%s)' % (batch, desc), 'the helper '
+                            'hands the result back: the count is made by its '
+                            'caller', line=called[2].lineno, file=mod.path)
             else:
-                good = [i for i in after if _len_of(i.value) == batch]
+                good = [i for i in after if inc_amount(i) in names]
                 if len(good) == 1 and len(after) == 1:
                     rep.ok('P-count', qual, 'counted once by len(%s) after a '
                            'successful call (%s)' % (batch, desc))
@@ -200,9 +417,15 @@ def check_func_eval(prog, rep, qual='cross._func_eval'):
                                   'len(%s); found %d increment(s) (%s)'
                                   % (batch, batch, len(after), desc),
                                   line=called[2].lineno, file=mod.path)
+        elif escaped:
+            for i in incs:
+                rep.unknown('P-count', qual, src(mod, i), 'the objective is '
+                            'handed to a helper on this path (%s): the count '
+                            'is not followed across the call' % desc,
+                            line=i.lineno, file=mod.path)
         else:
             for i in incs:
-                ln = _len_of(i.value)
+                ln = inc_amount(i)
                 if ln in empty_batches:
                     rep.ok('P-count', qual, 'increment by len(%s) of an empty '
                            'batch on a path without a call (%s)' % (ln, desc))
@@ -212,49 +435,73 @@ def check_func_eval(prog, rep, qual='cross._func_eval'):
                                   'info["m"] is increased on a path that '
                                   'never called the objective (%s)' % desc,
                                   line=i.lineno, file=mod.path)
+    if 'cache' not in fn.all_params or not any(
+            isinstance(x, ast.Compare) and any(
+                isinstance(o, (ast.In, ast.NotIn)) for o in x.ops) and
+            any(isinstance(c, ast.Name) and c.id == 'cache'
+                for c in x.comparators) for x in ast.walk(fn.node)):
+        return n_calls
     # --- cached branch: only unseen indices are evaluated, m_cache accounting
-    batch_param = params[1] if len(params) > 1 else 'I'
-    filt = None
+    org = roles.origins(fn.node, fn.all_params)
+    comps = []
     for node in ast.walk(fn.node):
         if isinstance(node, ast.ListComp) and len(node.generators) == 1:
             g = node.generators[0]
-            if isinstance(g.iter, ast.Name) and g.iter.id == batch_param and \
-                    any(isinstance(c, ast.Compare) and len(c.ops) == 1 and
-                        isinstance(c.ops[0], ast.NotIn) and
-                        isinstance(c.comparators[0], ast.Name) and
-                        c.comparators[0].id == 'cache' for c in g.ifs):
-                filt = node
-    if filt is not None:
-        rep.ok('P-cache-filter', qual, src(mod, filt))
+            from_batch = any(batch_param in org.get(x.id, ())
+                             for x in ast.walk(g.iter)
+                             if isinstance(x, ast.Name))
+            if not from_batch:
+                continue
+            uses_cache = any(isinstance(x, ast.Name) and x.id == 'cache'
+                             for x in ast.walk(node))
+            filt = any(isinstance(c, ast.Compare) and len(c.ops) == 1 and
+                       isinstance(c.ops[0], ast.NotIn) and
+                       isinstance(c.comparators[0], ast.Name) and
+                       c.comparators[0].id == 'cache' for c in g.ifs)
+            comps.append((node, filt, uses_cache))
+    # the batch handed to the objective in the cached mode derives from a
+    # comprehension filtered by  ... not in cache
+    flt = [c for c in comps if c[1]]
+    if flt:
+        rep.ok('P-cache-filter', qual, src(mod, flt[0][0]))
     else:
-        rep.violation('P-cache-filter', qual, 'I_new = [i for i in I if ... '
-                      'not in cache]',
-                      'the cached branch no longer restricts the batch to '
-                      'indices that are not in the cache',
-                      line=fn.node.lineno, file=mod.path)
+        # a comprehension that builds the new batch without the filter is the
+        # violation; no recognisable construction at all is not decided
+        built = [c for c in comps if not c[2]]
+        rep.add('P-cache-filter', qual, 'I_new = [i for i in I if ... '
+                'not in cache]', 'violation' if built else 'unknown',
+                'the cached branch no longer restricts the batch to '
+                'indices that are not in the cache',
+                line=fn.node.lineno, file=mod.path)
     ok_mc = False
+    found_mc = False
     for node in ast.walk(fn.node):
         if isinstance(node, ast.AugAssign) and \
                 _is_sub(node.target, info, 'm_cache') and \
-                isinstance(node.op, ast.Add) and \
-                isinstance(node.value, ast.BinOp) and \
-                isinstance(node.value.op, ast.Sub) and \
-                _len_of(node.value.left) == batch_param and \
-                _len_of(node.value.right) is not None:
-            ok_mc = True
-            rep.ok('P-count-cache', qual, src(mod, node))
+                isinstance(node.op, ast.Add):
+            found_mc = True
+            v = _norm(prog, fn, node.value)
+            if isinstance(v, ast.BinOp) and isinstance(v.op, ast.Sub) and \
+                    _len_arg(v.left) == batch_param and \
+                    _len_arg(v.right) is not None and \
+                    _len_arg(v.right) != batch_param:
+                ok_mc = True
+                rep.ok('P-count-cache', qual, src(mod, node))
     if not ok_mc:
-        rep.violation('P-count-cache', qual, 'info["m_cache"] += len(I) - '
-                      'len(I_new)', 'cache-hit accounting missing or changed',
-                      line=fn.node.lineno, file=mod.path)
+        rep.add('P-count-cache', qual, 'info["m_cache"] += len(I) - '
+                'len(I_new)', 'violation' if found_mc or not comps else
+                'unknown', 'cache-hit accounting missing or changed',
+                line=fn.node.lineno, file=mod.path)
     # every path of the cached branch that returns the values counts the
     # request exactly once: info['m'] and info['m_cache'] each get one
     # increment (a batch that is answered entirely from the cache included)
     for path in ps:
         end = path[-1].node if path and path[-1].kind == 'end' else None
-        if not (isinstance(end, ast.Return) and end.value is not None):
+        if not (isinstance(end, ast.Return) and end.value is not None and
+                not (isinstance(end.value, ast.Constant) and
+                     end.value.value is None)):
             continue
-        gs_ = [(e.node, e.pol) for e in path
+        gs_ = [(_norm(prog, fn, e.node), e.pol) for e in path
                if e.kind == 'test' and isinstance(e.node, ast.expr)]
         cached = paths.holds(gs_, 'cache', ast.IsNot, 'None')
         if not cached:
@@ -279,34 +526,58 @@ def check_func_eval(prog, rep, qual='cross._func_eval'):
                 'info["m"] is increased %d time(s) and info["m_cache"] %d '
                 'time(s): requests served from the cache are not counted'
                 % (n_m, n_c), line=end.lineno, file=mod.path)
-    # cache stores pair I_new[k] with y_new[k] of one enumeration
+    # cache stores pair I_new[k] with y_new[k] of one enumeration (a loop with
+    # a store, or cache.update over an enumerating generator)
+    def pair_ok(tgt, key_expr, val_expr):
+        kname = tgt.elts[0].id if isinstance(tgt, ast.Tuple) and \
+            isinstance(tgt.elts[0], ast.Name) else None
+        iname = tgt.elts[1].id if isinstance(tgt, ast.Tuple) and \
+            len(tgt.elts) > 1 and isinstance(tgt.elts[1], ast.Name) else None
+        key_uses_i = any(isinstance(x, ast.Name) and x.id == iname
+                         for x in ast.walk(key_expr))
+        val_uses_k = any(isinstance(x, ast.Subscript) and
+                         isinstance(x.slice, ast.Name) and
+                         x.slice.id == kname for x in ast.walk(val_expr))
+        return key_uses_i and val_uses_k
+
+    def is_enum(it):
+        return isinstance(it, ast.Call) and isinstance(it.func, ast.Name) \
+            and it.func.id == 'enumerate'
     for node in ast.walk(fn.node):
-        if isinstance(node, ast.For) and isinstance(node.iter, ast.Call) and \
-                isinstance(node.iter.func, ast.Name) and \
-                node.iter.func.id == 'enumerate':
+        if isinstance(node, ast.For) and is_enum(node.iter):
             for st in node.body:
                 for t, v in paths.stores_in(st):
                     if isinstance(t, ast.Subscript) and \
                             isinstance(t.value, ast.Name) and \
                             t.value.id == 'cache':
-                        tgt = node.target
-                        kname = tgt.elts[0].id if isinstance(tgt, ast.Tuple) \
-                            else None
-                        iname = tgt.elts[1].id if isinstance(tgt, ast.Tuple) \
-                            else None
-                        key_uses_i = any(isinstance(x, ast.Name) and
-                                         x.id == iname for x in ast.walk(t.slice))
-                        val_uses_k = any(
-                            isinstance(x, ast.Subscript) and
-                            isinstance(x.slice, ast.Name) and
-                            x.slice.id == kname for x in ast.walk(v))
-                        if key_uses_i and val_uses_k:
-                            rep.ok('P-cache-pair', qual, src(mod, st))
-                        else:
-                            rep.violation('P-cache-pair', qual, src(mod, st),
-                                          'cache key and value are not taken '
-                                          'from the same enumeration index',
-                                          line=st.lineno, file=mod.path)
+                        ok_ = pair_ok(node.target, t.slice, v)
+                        rep.add('P-cache-pair', qual, src(mod, st),
+                                'ok' if ok_ else 'violation',
+                                '' if ok_ else 'cache key and value are not '
+                                'taken from the same enumeration index',
+                                line=st.lineno, file=mod.path)
+        if isinstance(node, ast.Call) and \
+                isinstance(node.func, ast.Attribute) and \
+                node.func.attr == 'update' and \
+                isinstance(node.func.value, ast.Name) and \
+                node.func.value.id == 'cache' and node.args and \
+                isinstance(node.args[0], (ast.GeneratorExp, ast.ListComp,
+                                          ast.DictComp)):
+            ge = node.args[0]
+            if len(ge.generators) == 1 and is_enum(ge.generators[0].iter):
+                if isinstance(ge, ast.DictComp):
+                    k_, v_ = ge.key, ge.value
+                elif isinstance(ge.elt, ast.Tuple) and len(ge.elt.elts) == 2:
+                    k_, v_ = ge.elt.elts
+                else:
+                    continue
+                ok_ = pair_ok(ge.generators[0].target, k_, v_)
+                rep.add('P-cache-pair', qual, src(mod, node),
+                        'ok' if ok_ else 'violation',
+                        '' if ok_ else 'cache key and value are not taken '
+                        'from the same enumeration index',
+                        line=node.lineno, file=mod.path)
+    return n_calls
 
 
 # ---------------------------------------------------------------------------
@@ -358,9 +629,11 @@ def _thr_guard_ok(mod, gs, key):
                lambda r: isinstance(r, ast.Name) and r.id == key)
     ge = _fact(gs, is_val, ast.GtE,
                lambda r: isinstance(r, ast.Constant) and r.value == 0)
-    fin = any((not pol) and isinstance(t, ast.Call) and
-              isinstance(t.func, ast.Attribute) and t.func.attr == 'isinf'
-              and t.args and is_val(t.args[0])
+    fin = any(isinstance(t, ast.Call) and
+              isinstance(t.func, ast.Attribute) and t.args and
+              is_val(t.args[0]) and (
+                  ((not pol) and t.func.attr == 'isinf') or
+                  (pol and t.func.attr == 'isfinite'))
               for t, pol in guard_atoms(gs))
     return _stop_is_none(gs) and le and ge and fin and _given(gs, key)
 
@@ -369,10 +642,20 @@ def check_stop_writers(prog, rep, functions=None):
     """Who may write info['stop'], with which literal, under which guard."""
     seen = set()
     order = []
+    mods = None if functions is None else {q.split('.')[0] for q in functions}
+
+    def in_scope(fn):
+        if functions is None or fn.qualname in functions:
+            return True
+        # a private helper of a listed module (code moved out of a listed
+        # function keeps its obligations)
+        parts = fn.qualname.split('.')
+        return parts[0] in mods and len(parts) == 2 and \
+            parts[1].startswith('_') and parts[0] != 'utils'
     for fn in prog.all_functions():
         if isinstance(fn.node, ast.Lambda):
             continue
-        if functions is not None and fn.qualname not in functions:
+        if not in_scope(fn):
             continue
         mod = fn.module
         for st, t, v in stores_of_key(fn.node, 'stop'):
@@ -396,14 +679,22 @@ def check_stop_writers(prog, rep, functions=None):
                               line=st.lineno, file=mod.path)
                 continue
             pred = STOP_TABLE.get((fn.qualname, lit))
+            table_fn = fn.qualname
+            if pred is None and fn.qualname.split('.')[-1].startswith('_'):
+                # helper of the function the table names for this reason
+                cands = [q for (q, l) in STOP_TABLE if l == lit and
+                         q.split('.')[0] == fn.qualname.split('.')[0]]
+                if len(cands) == 1:
+                    table_fn = cands[0]
+                    pred = STOP_TABLE[(table_fn, lit)]
             if pred is None:
                 rep.violation('P-stop-writers', fn.qualname, construct,
                               'unexpected writer of stop=%r (not in the '
                               'writer table frozen from the documented '
                               'protocol)' % lit, line=st.lineno, file=mod.path)
                 continue
-            seen.add((fn.qualname, lit))
-            gs = guards_of(fn.node, st)
+            seen.add((table_fn, lit))
+            gs = norm_guards(prog, fn, st)
             ok, why = _stop_guard(mod, fn, st, v, gs, pred, lit)
             order.append((fn.qualname, lit, st.lineno))
             if ok:
@@ -443,6 +734,15 @@ def _stop_guard(mod, fn, st, v, gs, pred, lit):
         ok = any(pol and isinstance(t, ast.Compare) and
                  any(_is_sub(x, 'info', 'm_max') for x in ast.walk(t))
                  for t, pol in guard_atoms(gs))
+        if not ok:
+            # any spelling: the guards imply  m_max is not None and
+            # info['m'] + len(<some batch>) > m_max
+            batches = {_len_arg(x) for t, _ in gs for x in ast.walk(t)
+                       if _len_arg(x)}
+            for b in batches:
+                if paths.entails(gs, budget_atomiser('info', b),
+                                 lambda a: (not a['N']) and a['G']):
+                    ok = True
         return ok, 'under the budget test'
     if pred == 'none-result':
         ok = _fact(gs, lambda l: isinstance(l, ast.Name), ast.Is, _is_none)
@@ -683,6 +983,13 @@ def check_validation(prog, rep, qual='cross.cross'):
             continue
         if isinstance(st, ast.If) and _pure_rejection(st):
             continue
+        # a pure boolean / scalar temporary is not an effect
+        from . import roles as _roles
+        if isinstance(st, ast.Assign) and len(st.targets) == 1 and \
+                isinstance(st.targets[0], ast.Name) and \
+                isinstance(st.value, (ast.BoolOp, ast.Compare, ast.UnaryOp)) \
+                and _roles.scalarish(st.value):
+            continue
         first_effect = st
         break
     n_before = [r for r in raises if first_effect is None or
@@ -788,6 +1095,32 @@ def check_param_forwarding(prog, rep, callers=None, rule='P-forward-name'):
                 ps = ps[1:]
             bound = set(ps[:len(node.args)]) | {k.arg for k in node.keywords
                                                 if k.arg}
+            # **opts with opts = dict(k=v, ...) / {'k': v} bound once: the
+            # keys count as passed; any other ** argument is not followed
+            star_unknown = False
+            for k in node.keywords:
+                if k.arg is not None:
+                    continue
+                keys_ = None
+                v_ = k.value
+                if isinstance(v_, ast.Name):
+                    from . import roles as _roles
+                    v_ = _roles.single_assignments(fn.node).get(v_.id)
+                if isinstance(v_, ast.Call) and \
+                        isinstance(v_.func, ast.Name) and \
+                        v_.func.id == 'dict' and not v_.args and \
+                        all(kk.arg is not None for kk in v_.keywords):
+                    keys_ = {kk.arg for kk in v_.keywords}
+                elif isinstance(v_, ast.Dict) and all(
+                        isinstance(kk, ast.Constant) and
+                        isinstance(kk.value, str) for kk in v_.keys):
+                    keys_ = {kk.value for kk in v_.keys}
+                if keys_ is None:
+                    star_unknown = True
+                else:
+                    bound |= keys_
+            if star_unknown:
+                continue
             for p in callee.all_params:
                 if p == 'self' or p not in own:
                     continue
